@@ -186,7 +186,7 @@ func variants276(net, ver int, data []byte, addr string, yield func(Str)) {
 
 func TestBIP276Family(t *testing.T) {
 	pbt.Run(t, pbt.Sub[Str]{
-		Name: "bip276", Quick: 120000, Thorough: 3000000,
+		Name: "bip276", Quick: 60000, Thorough: 1500000,
 		Gen: func(t *rapid.T) Str {
 			h := genHash(t)
 			addr := baseAddr(h, rapid.Bool().Draw(t, "mainnet"))
@@ -223,11 +223,11 @@ func TestBIP276Family(t *testing.T) {
 			return c
 		},
 		Check:    checkBIP276,
-		EnumDesc: "for 40 (quick) / 400 (thorough) payees x data {P2PKH script, empty, 1 byte, 100 bytes} x (network, version) in {(1,1), (2,1)}: the valid BIP276 text and its neighbourhood - 20 prefixes x 8 separators with recomputed and with kept checksum, upper-case variants, every body digit substituted / some deleted / non-hex inserted, checksum digits changed, truncations, padding, extension, concatenations with an address, short bodies; and all 256 x 256 / 16 network-version pairs on one payee",
+		EnumDesc: "for 20 (quick) / 200 (thorough) payees x data {P2PKH script, empty, 1 byte, 100 bytes} x (network, version) in {(1,1), (2,1)}: the valid BIP276 text and its neighbourhood - 20 prefixes x 8 separators with recomputed and with kept checksum, upper-case variants, every body digit substituted / some deleted / non-hex inserted, checksum digits changed, truncations, padding, extension, concatenations with an address, short bodies; and all 256 x 256 / 16 network-version pairs on one payee",
 		Enum: func(tier string, yield func(Str)) {
-			n := 40
+			n := 20
 			if tier == "thorough" {
-				n = 400
+				n = 200
 			}
 			for i := 0; i < n; i++ {
 				h := enumHash(9000 + i)
